@@ -21,6 +21,7 @@ import (
 	"pgregory.net/rapid"
 
 	"verifharness/internal/gen"
+	"verifharness/internal/layout"
 	"verifharness/internal/stats"
 )
 
@@ -37,6 +38,11 @@ type Case struct {
 	// invariant under translation and positive scaling).
 	K   int   `json:"k"`
 	Off gen.P `json:"off"`
+	// Layout of the value handed to orb ("shared": all rings are consecutive windows of one coordinate
+	// buffer, "spare": every slice has spare capacity holding sentinels, "" / "plain": cap == len). The
+	// oracle works on an independent copy made before the call; after every call the whole backing
+	// memory (elements and spare capacity, coordinate arrays and outer slices) must be bit-identical.
+	Layout string `json:"layout,omitempty"`
 }
 
 // placer maps lattice coordinates to the coordinates given to orb.
@@ -361,18 +367,39 @@ func checkCase(c Case) error {
 		}
 		ring := mp[0][0]
 		vars := ringVariants(ring)
+		laid := make([]orb.Ring, len(vars))
+		guards := make([]*layout.Guard, len(vars))
+		for i, v := range vars {
+			g, gd := layout.LayOut(v.ring, c.Layout)
+			laid[i], guards[i] = g.(orb.Ring), gd
+		}
+		g1, gp := layout.LayOut(orb.Polygon{ring}, c.Layout)
+		g2, gm := layout.LayOut(orb.MultiPolygon{{ring}}, c.Layout)
+		lp, lm := g1.(orb.Polygon), g2.(orb.MultiPolygon)
 		for k, q := range qs {
 			cls := exactClass(imp[0][0], iqs[k])
 			want := cls != outside
-			for _, v := range vars {
-				if got := planar.RingContains(v.ring, q); got != want {
-					return fmt.Errorf("RingContains(%v, %v) = %v, exact even-odd answer is %v (%s; ring %s)", v.ring, q, got, want, className(cls), v.name)
+			for i, v := range vars {
+				got := planar.RingContains(laid[i], q)
+				if err := guards[i].Check(); err != nil {
+					return fmt.Errorf("RingContains(%v, %v) [%s layout; ring %s]: %v", v.ring, q, layoutName(c.Layout), v.name, err)
+				}
+				if got != want {
+					return fmt.Errorf("RingContains(%v, %v) = %v, exact even-odd answer is %v (%s; ring %s; %s layout)", v.ring, q, got, want, className(cls), v.name, layoutName(c.Layout))
 				}
 			}
-			if got := planar.PolygonContains(orb.Polygon{ring}, q); got != want {
+			got := planar.PolygonContains(lp, q)
+			if err := gp.Check(); err != nil {
+				return fmt.Errorf("PolygonContains(one-ring polygon %v, %v) [%s layout]: %v", ring, q, layoutName(c.Layout), err)
+			}
+			if got != want {
 				return fmt.Errorf("PolygonContains(one-ring polygon %v, %v) = %v, want %v", ring, q, got, want)
 			}
-			if got := planar.MultiPolygonContains(orb.MultiPolygon{{ring}}, q); got != want {
+			got = planar.MultiPolygonContains(lm, q)
+			if err := gm.Check(); err != nil {
+				return fmt.Errorf("MultiPolygonContains(one-member %v, %v) [%s layout]: %v", ring, q, layoutName(c.Layout), err)
+			}
+			if got != want {
 				return fmt.Errorf("MultiPolygonContains(one-member %v, %v) = %v, want %v", ring, q, got, want)
 			}
 		}
@@ -385,10 +412,16 @@ func checkCase(c Case) error {
 			for j, r := range mp[0] {
 				poly[j] = respell(r, mode)
 			}
+			lg, gd := layout.LayOut(poly, c.Layout)
+			lpoly := lg.(orb.Polygon)
 			for k, q := range qs {
 				want := exactPolygon(imp[0], iqs[k])
-				if got := planar.PolygonContains(poly, q); got != want {
-					return fmt.Errorf("PolygonContains(%v, %v) = %v, want %v (%s; %s)", poly, q, got, want, describePolygon(imp[0], iqs[k]), modeName[mode])
+				got := planar.PolygonContains(lpoly, q)
+				if err := gd.Check(); err != nil {
+					return fmt.Errorf("PolygonContains(%v, %v) [%s layout; %s]: %v", poly, q, layoutName(c.Layout), modeName[mode], err)
+				}
+				if got != want {
+					return fmt.Errorf("PolygonContains(%v, %v) = %v, want %v (%s; %s; %s layout)", poly, q, got, want, describePolygon(imp[0], iqs[k]), modeName[mode], layoutName(c.Layout))
 				}
 			}
 		}
@@ -410,10 +443,16 @@ func checkCase(c Case) error {
 			if mode < 3 {
 				name = modeName[mode]
 			}
+			lg, gd := layout.LayOut(m, c.Layout)
+			lmp := lg.(orb.MultiPolygon)
 			for k, q := range qs {
 				want := exactMulti(imp, iqs[k])
-				if got := planar.MultiPolygonContains(m, q); got != want {
-					return fmt.Errorf("MultiPolygonContains(%v, %v) = %v, want %v (%s)", m, q, got, want, name)
+				got := planar.MultiPolygonContains(lmp, q)
+				if err := gd.Check(); err != nil {
+					return fmt.Errorf("MultiPolygonContains(%v, %v) [%s layout; %s]: %v", m, q, layoutName(c.Layout), name, err)
+				}
+				if got != want {
+					return fmt.Errorf("MultiPolygonContains(%v, %v) = %v, want %v (%s; %s layout)", m, q, got, want, name, layoutName(c.Layout))
 				}
 			}
 		}
@@ -422,6 +461,16 @@ func checkCase(c Case) error {
 	}
 	return nil
 }
+
+func layoutName(l string) string {
+	if l == "shared" || l == "spare" {
+		return l
+	}
+	return "plain"
+}
+
+// layouts: 40 % shared, 40 % spare, 20 % plain
+var layouts = []string{"shared", "shared", "spare", "spare", "plain"}
 
 func className(c int) string {
 	switch c {
@@ -695,8 +744,9 @@ func genPolygon(t *rapid.T, maxHoles int) []qring {
 func TestPropContains(t *testing.T) {
 	stats.Assume("every coordinate is a dyadic rational k/32 with |k/32| <= 256 (multiples of 1/1024 are accepted by the oracle), so that orb's float slope comparison is exact and any disagreement with the integer oracle is a logic error")
 	stats.Assume("cases are placed exactly at (v + off) * 2^k with k in [-40, 40] and off in {0, +-2^20, +-2^30, 2^30+0.5, -(2^30+2^10), 3*2^28} per axis; the oracle decides on the unplaced lattice")
+	stats.Assume("the value handed to orb is laid out shared (all rings consecutive windows of one buffer, len < cap) / spare (own arrays with sentinel slots) / plain in 40/40/20 % of the cases, outer slices with spare sentinel entries; the containment tests must leave all of that memory bit-identical")
 	stats.Assume("rings have >= 3 listed vertices (repeats allowed), polygons have an outer ring; Polygon{} and rings without vertices are outside the quantifier")
-	stats.Check(t, 240000, 4000000, func(rt *rapid.T) {
+	stats.Check(t, 200000, 4000000, func(rt *rapid.T) {
 		kind := rapid.SampledFrom([]string{"ring", "ring", "ring", "polygon", "polygon", "multipolygon"}).Draw(rt, "kind")
 		f := genFrame(rt)
 		var members [][]qring
@@ -748,6 +798,8 @@ func TestPropContains(t *testing.T) {
 			c.K = rapid.IntRange(-40, 40).Draw(rt, "k")
 			c.Off = gen.P{gen.F(rapid.SampledFrom(bigOffsets).Draw(rt, "offx")), gen.F(rapid.SampledFrom(bigOffsets).Draw(rt, "offy"))}
 		}
+		c.Layout = rapid.SampledFrom(layouts).Draw(rt, "layout")
+		stats.Class("layout:" + c.Layout)
 		switch {
 		case c.K == 0 && c.Off == (gen.P{}):
 			stats.Class("placement:none")
@@ -1083,12 +1135,20 @@ func TestEnumPolygons(t *testing.T) {
 				continue
 			}
 			sel[0], sel[1], sel[2] = code%16, code/16%16, code/256
-			tr, tir := l.ring(sel, true)
+			tr, tir := l.ring(sel, code%2 == 0) // closed and unclosed spellings alternate
 			tc := clsOf(tir)
+			// pristine values (used for the oracle, the messages and the replay case) and the laid-out
+			// copies handed to orb: 2 of 5 shared, 2 of 5 spare, 1 of 5 plain
+			lay := layouts[idx%5]
 			p1 := orb.Polygon{or, tr}
 			p2 := orb.Polygon{or, h0r, tr}
 			m1 := orb.MultiPolygon{{tr}, {or, h0r}}
 			m2 := orb.MultiPolygon{{or, h0r}, {tr}}
+			g1, gd1 := layout.LayOut(p1, lay)
+			g2, gd2 := layout.LayOut(p2, lay)
+			g3, gd3 := layout.LayOut(m1, lay)
+			g4, gd4 := layout.LayOut(m2, lay)
+			lp1, lp2, lm1, lm2 := g1.(orb.Polygon), g2.(orb.Polygon), g3.(orb.MultiPolygon), g4.(orb.MultiPolygon)
 			var fail *Case
 			err := stats.Guard(func() error {
 				for k, q := range l.qs {
@@ -1106,19 +1166,25 @@ func TestEnumPolygons(t *testing.T) {
 					if fail != nil {
 						continue
 					}
+					// a write to the argument can make a later query (or the rest of this one) wrong: the
+					// replay case then carries every query up to and including this one
+					upTo := l.qs[:k+1]
 					switch {
-					case planar.PolygonContains(p1, q) != w1:
-						c := caseOf("polygon", orb.MultiPolygon{p1}, []orb.Point{q})
+					case planar.PolygonContains(lp1, q) != w1 || gd1.Check() != nil:
+						c := caseOf("polygon", orb.MultiPolygon{p1}, upTo)
 						fail = &c
-					case planar.PolygonContains(p2, q) != w2:
-						c := caseOf("polygon", orb.MultiPolygon{p2}, []orb.Point{q})
+					case planar.PolygonContains(lp2, q) != w2 || gd2.Check() != nil:
+						c := caseOf("polygon", orb.MultiPolygon{p2}, upTo)
 						fail = &c
-					case planar.MultiPolygonContains(m1, q) != wm:
-						c := caseOf("multipolygon", m1, []orb.Point{q})
+					case planar.MultiPolygonContains(lm1, q) != wm || gd3.Check() != nil:
+						c := caseOf("multipolygon", m1, upTo)
 						fail = &c
-					case planar.MultiPolygonContains(m2, q) != wm:
-						c := caseOf("multipolygon", m2, []orb.Point{q})
+					case planar.MultiPolygonContains(lm2, q) != wm || gd4.Check() != nil:
+						c := caseOf("multipolygon", m2, upTo)
 						fail = &c
+					}
+					if fail != nil {
+						fail.Layout = lay
 					}
 				}
 				return nil
@@ -1141,7 +1207,7 @@ func TestEnumPolygons(t *testing.T) {
 	}
 	stats.ClassN("enum polygon {O,T} pair:in", pin)
 	stats.ClassN("enum polygon {O,T} pair:out", pout)
-	stats.Subspace("3 fixed outer rings O x every 3-vertex ring T of the 4x4 grid: polygons {O,T}, {O,H0,T} and multi-polygons {{T},{O,H0}}, {{O,H0},{T}} x every point of the half-step lattice", size, true)
+	stats.Subspace("3 fixed outer rings O x every 3-vertex ring T of the 4x4 grid (closed / unclosed alternating): polygons {O,T}, {O,H0,T} and multi-polygons {{T},{O,H0}}, {{O,H0},{T}}, laid out shared / spare / plain (2:2:1) with a whole-memory guard, x every point of the half-step lattice", size, true)
 }
 
 // TestSelfOracle validates the oracle itself (no call into orb): two
